@@ -300,6 +300,7 @@ def sim_kwargs(op):
         initialize_state_info=bool(op.get("init_state", True)),
         initialize_log_info=bool(op.get("init_log", True)),
         max_time=int(op.get("max_time", 200)),
+        **({"unit_time": int(op["unit_time"])} if op.get("unit_time", 1) != 1 else {}),
     )
 
 
